@@ -211,6 +211,23 @@ func parseCaretConstraint(version string) ([]*constraint, error) {
 			}, nil
 		}
 	} else {
+		// ^0.0 means >=0.0.0 <0.1.0 and ^0 means >=0.0.0 <1.0.0: components that were not
+		// written are free
+		if written := len(strings.Split(strings.SplitN(version, "-", 2)[0], ".")); written < 3 {
+			upperVersionStr := "0.1.0"
+			if written == 1 {
+				upperVersionStr = "1.0.0"
+			}
+			upperVersion, err := e.NewVersion(upperVersionStr)
+			if err != nil {
+				return nil, err
+			}
+			return []*constraint{
+				{operator: ">=", version: v},
+				{operator: "<", version: upperVersion},
+			}, nil
+		}
+
 		// Compatible changes within the same patch version for 0.0.x
 		if v.stability == stabilityStable {
 			baseVersionStr := fmt.Sprintf("0.0.%d", v.patch)
